@@ -590,7 +590,7 @@ class Interp:
         if self.concrete and isinstance(v, Sym) and v.e.eq(sym.PI):
             import math
             return math.pi
-        return v
+        return self.realify(v)
 
     def e_Tuple(self, node, frame):
         return tuple(self.eval_list(node.elts, frame))
@@ -810,13 +810,13 @@ class Interp:
         return self.eval_index(node, frame)
 
     # comprehensions ---------------------------------------------------------
-    def _comp(self, generators, frame, emit):
+    def _comp(self, generators, frame, emit, first=None):
         def rec(i, fr):
             if i == len(generators):
                 emit(fr)
                 return
             g = generators[i]
-            it = self.eval(g.iter, fr)
+            it = first if (i == 0 and first is not None) else self.eval(g.iter, fr)
             for x in self.models.concrete_iter(self, it):
                 self.assign(g.target, x, fr)
                 ok = True
@@ -830,11 +830,12 @@ class Interp:
         rec(0, inner)
 
     def e_ListComp(self, node, frame):
-        h = self.models.symbolic_comprehension(self, node, frame)
-        if h is not self.models.NOHOOK:
-            return h
+        first = self.eval(node.generators[0].iter, frame)
+        hook = getattr(first, "__pyvc_comprehension__", None)
+        if hook is not None:
+            return hook(self, node, frame)
         out = []
-        self._comp(node.generators, frame, lambda fr: out.append(self.eval(node.elt, fr)))
+        self._comp(node.generators, frame, lambda fr: out.append(self.eval(node.elt, fr)), first)
         return out
 
     def e_SetComp(self, node, frame):
@@ -894,9 +895,9 @@ class Interp:
             inner = f.__func__
             if self.is_analysed(inner):
                 return self.call_value(inner, [f.__self__] + list(args), kwargs, node, frame)
-        if isinstance(f, types.FunctionType) and self.is_analysed(f):
-            return self.call_analysed(f, args, kwargs, node, frame)
         m = self.models.lookup_model(f)
+        if isinstance(f, types.FunctionType) and self.is_analysed(f) and (m is None or self.concrete):
+            return self.call_analysed(f, args, kwargs, node, frame)
         if m is not None and not self.concrete and (deep_sym(args) or deep_sym(kwargs) or _has_fraction(args)
                                                     or _has_fraction(kwargs.values())):
             self.trusted_used.add("model:" + m.__name__)
